@@ -20,7 +20,7 @@ OBJECT = ("BEGIN", "OBJECT", "O")
 END_GROUP = ("ENDAGG", "END_GROUP", "G")
 END_OBJECT = ("ENDAGG", "END_OBJECT", "O")
 END = ("END", "END", None)
-COMMENT = ("COMMENT", "/*c*/", None)
+COMMENT = ("COMMENT", "/*=*/", None)      # a comment that contains an equals sign
 # lexically damaged tokens: an unterminated quoted string / units expression
 # swallows the rest of the text unless a later token happens to close it
 BADQ = ("BADQ", '"s', None)
